@@ -7,6 +7,7 @@ import (
 	"math/big"
 	"sort"
 	"strconv"
+	"strings"
 
 	"golang.org/x/tools/go/ssa"
 
@@ -28,6 +29,7 @@ type CEnv struct {
 	cl      *Clause
 	depth   int
 	boundNames map[string]bool
+	entryVals  bool
 }
 
 func (ex *Exec) envFor(fr *Frame, st, old *State, over map[ssa.Value]Val) *CEnv {
@@ -109,6 +111,7 @@ func (e *CEnv) eval(x Expr) Val {
 	case *EOld:
 		s := e.sub()
 		s.st = e.old
+		s.entryVals = true // parameters denote their entry values inside old()
 		return s.eval(n.X)
 	case *EUnary:
 		v := e.eval(n.X)
@@ -297,7 +300,7 @@ func (e *CEnv) ident(name string) Val {
 			return v
 		}
 	}
-	if e.fr != nil && e.atBlock != nil {
+	if e.fr != nil && e.atBlock != nil && !e.entryVals {
 		// inside a function body (loop invariant, exit assertion): the current value of a reassigned
 		// parameter or local takes precedence over the parameter's entry value
 		if v, ok := e.lookupLocal(name); ok {
@@ -745,6 +748,57 @@ func (e *CEnv) call(n *ECall) Val {
 				}
 			}
 			e.fail("no method value %s on %s is ever created", name, recv.T)
+		case "maphas", "mapval": // maphas(globalMap, key) / mapval(globalMap, key): lookup in an init-only package-level map
+			id, ok := n.Args[0].(*EIdent)
+			if !ok || e.pkg == nil {
+				e.fail("%s: first argument must name a package-level map", "maphas/mapval")
+			}
+			vobj, ok := e.pkg.Scope().Lookup(id.Name).(*types.Var)
+			if !ok {
+				e.fail("unknown package-level variable %s", id.Name)
+			}
+			g := e.ex.Prog.GlobalFor(vobj)
+			mt, isMap := vobj.Type().Underlying().(*types.Map)
+			if g == nil || !isMap || !e.ex.Prog.GlobalMapConst(g) {
+				e.fail("%s is not a map filled only by the package initialiser", id.Name)
+			}
+			key := e.eval(n.Args[1])
+			r := e.ex.mapLookupTerm(g, mt, key.Tm, true, nil)
+			if id2 := n.Fun.(*EIdent); id2.Name == "maphas" {
+				return r.Tup[1]
+			}
+			return r.Tup[0]
+		case "mk": // mk("Type", f1, f2, ...): a struct value with the given field values in declaration order
+			t := e.ex.Prog.LookupType(e.pkg, n.Args[0].(*EStr).V)
+			if t == nil {
+				e.fail("unknown type %s", n.Args[0].(*EStr).V)
+			}
+			dt := e.ex.W.DT(e.ex.W.SortOf(t))
+			if dt == nil || len(dt.Fields) != len(n.Args)-1 {
+				e.fail("mk: wrong number of fields for %s", t)
+			}
+			var fs []*smt.Term
+			for _, a := range n.Args[1:] {
+				fs = append(fs, e.eval(a).Tm)
+			}
+			return Val{T: t, Tm: c.Construct(dt, fs...)}
+		case "bit": // bit(m, k): bit k of the integer m (two's complement), via the bit-vector bridge
+			m := e.eval(n.Args[0])
+			kv, ok := e.eval(n.Args[1]).Tm.IntVal()
+			if !ok || !kv.IsInt64() || kv.Int64() < 0 || kv.Int64() > 62 {
+				e.fail("bit(m, k): k must be a literal in 0..62")
+			}
+			w := 8
+			if bw, ok := e.ex.bitsFor(m.T); ok {
+				w = bw
+			}
+			if int(kv.Int64()) >= w {
+				w = int(kv.Int64()) + 1
+			}
+			bs := smt.BVSort(w)
+			x := c.App(fmt.Sprintf("(_ int2bv %d)", w), bs, m.Tm)
+			ex := c.App(fmt.Sprintf("(_ extract %d %d)", kv.Int64(), kv.Int64()), smt.BVSort(1), x)
+			return Val{T: tBool, Tm: c.Eq(ex, c.BVLit(1, 1))}
 		case "boxed": // boxed(x): the interface value holding x
 			v := e.eval(n.Args[0])
 			return Val{T: types.NewInterfaceType(nil, nil), Tm: e.ex.box(v, e.st)}
@@ -973,6 +1027,9 @@ type recDef struct {
 }
 
 func (e *CEnv) specType(s string) types.Type {
+	if strings.HasPrefix(s, "[]") {
+		return types.NewSlice(e.specType(s[2:]))
+	}
 	ptr := false
 	if len(s) > 0 && s[0] == '*' {
 		ptr = true
